@@ -5,6 +5,7 @@ CONSTANTS
   FwKinds = {"ok"}
   FwConfigs = {"--"}
   Values = {1, 2}
+  NoResult = {FALSE}
   ErrReplies = FALSE
   HostileClasses = {}
   MetaKeys = {}
